@@ -19,23 +19,30 @@ import (
 // nil error" — must be one Boolean function.  Only the construction of the
 // Addr value (128-bit arithmetic, the interned zone) is cut out of the
 // reference: it cannot fail.
-func c02IPExact(c *Ctx) bool {
+func c02IPExact(c *Ctx) (okExact bool) {
+	defer recoverUnsupported(c, &okExact, "c02IPExact")
 	return c02AgainstNetip(c, "C02.ip-exact", "IsValidIPString", "ParseAddr", "1:.%", false)
 }
 
 // c02IPPortExact: the same for IsValidIPPortString against
 // netip.ParseAddrPort (the splitter, the bracket rules, the port number).
-func c02IPPortExact(c *Ctx) bool {
+func c02IPPortExact(c *Ctx) (okExact bool) {
+	defer recoverUnsupported(c, &okExact, "c02IPPortExact")
 	return c02AgainstNetip(c, "C02.ipport-exact", "IsValidIPPortString", "ParseAddrPort", "1:[]", true)
 }
 
-func c02AgainstNetip(c *Ctx, rule, fname, refName, alpha4 string, port bool) bool {
+func c02AgainstNetip(c *Ctx, rule, fname, refName, alpha4 string, port bool) (okExact bool) {
+	defer recoverUnsupported(c, &okExact, "c02AgainstNetip")
 	f := c.fn("netutil", fname)
 	var ref *ssa.Function
 	if p := c.P.SSA.ImportedPackage("net/netip"); p != nil {
 		ref = p.Func(refName)
 	}
 	if f == nil || ref == nil || len(ref.Blocks) == 0 {
+		return false
+	}
+	if th := lengthThresholds(f, 24); len(th) > 0 {
+		c.L.Notef("%s treats long inputs differently (%s): the lengths evaluated do not cover that; structural rules used instead", fname, th[0])
 		return false
 	}
 	// scenarios: a constant prefix followed by n free bytes, each free byte
